@@ -1,7 +1,7 @@
 """C04 — collider AABBs enclose and are tight (structural clauses; the closed-form extents are NOT decided)."""
 from . import scopes
 from ..core.report import DOMAIN_D
-from ..rules import colliders, frame, degree, hydro, safediv, unpack
+from ..rules import colliders, frame, degree, hydro, safediv, unpack, purity, onsegment, misc2, aabbtree
 from .common import e2
 
 MODS = {"distance3d.containment", "distance3d.colliders", "distance3d.geometry", "distance3d.utils", "distance3d.mesh"}
@@ -30,4 +30,8 @@ def run(idx, rep, tier):
     safediv.r_sqrtdomain(idx, rep, modules=["distance3d.containment"], floor=4, unknown_ceiling=2, sqrt_calls=("np.sqrt", "math.sqrt"))
     hydro.r_invalidate(idx, rep, relevant_to="aabb", floor=2)      # RigidBody.aabb() is the root box of a cached tree
     degree.r_degree(idx, rep, modules=sorted(MODS), floor=20)
+    purity.r_pureargs(idx, rep, ["distance3d.containment", "distance3d.colliders", "distance3d.utils"], floor=10)
+    onsegment.r_halfsize(idx, rep, ["distance3d.containment", "distance3d.colliders"], floor=2)
+    misc2.r_dupcond(idx, rep, [m.name for m in idx.lib_modules()], floor=3)
+    aabbtree.r_links(idx, rep)      # RigidBody.aabb() is the root box of its AabbTree: links + refit decide that it is the union of the leaves
     unpack.r_unpack(idx, rep, floor=7)
